@@ -14,7 +14,8 @@ M("downhill-last-trial-returned", "linesearch.py", "    steplength = best_stp\n\
 M("downhill-wrong-step-recorded", "linesearch.py", SEL, "            if f_m1 < best_f:\n                best_f = f_m1\n                best_stp = max_steplength\n", ["DOWNHILL"])
 M("downhill-eval-other-point", "linesearch.py", "sf.fun_and_grad(np.clip(x0 + steplength * d, lb, ub))", "sf.fun_and_grad(np.clip(x0 + steplength_0 * d, lb, ub))", ["DOWNHILL"],
   also=[("linesearch.py", "            steplength_0 = steplength\n            f_m1", "            f_m1")], note="value recorded for a step other than the one evaluated")
-Q("downhill-not-ge", "linesearch.py", SEL, "            if not f_m1 >= best_f:\n                best_f = f_m1\n                best_stp = steplength\n", ["DOWNHILL"])
+M("downhill-not-ge-nan", "linesearch.py", SEL, "            if not f_m1 >= best_f:\n                best_f = f_m1\n                best_stp = steplength\n", ["DOWNHILL"],
+  note="not (a >= b) is also true for a NaN trial value: it becomes the running minimum and every later trial is then accepted")
 Q("downhill-final-guard", "linesearch.py", "    if best_stp is None:\n        return None\n", "    if best_stp is None or best_f >= f0:\n        return None\n", ["DOWNHILL"])
 Q("downhill-renamed", "linesearch.py", SEL, "            if best_f > f_m1:\n                best_stp = steplength\n                best_f = float(f_m1)\n", ["DOWNHILL"])
 
